@@ -55,6 +55,48 @@ fn check_deck(rep: &mut Rep, seed: u64, n_seeded: u64) {
             idx.push(v);
         }
     }
+    // indexes that arithmetic on the index can wrap back into range: a few below usize::MAX, and every
+    // index whose product with a small constant c is tiny modulo 2^64 (t * c^-1 for odd c, and the 2^k * odd
+    // analogue) - where a reciprocal-multiply, a hash or a scaled offset computed from the index comes out
+    // looking like an in-range slot although the index itself is astronomically large
+    for k in 0..300usize {
+        idx.push(usize::MAX - k);
+        idx.push((1usize << 63) - 1 - k);
+    }
+    let inverse = |o: u64| {
+        let mut x = o;
+        for _ in 0..6 {
+            x = x.wrapping_mul(2u64.wrapping_sub(o.wrapping_mul(x)));
+        }
+        x
+    };
+    let mut wrap = 0u64;
+    for o in (3u64..1 << 16).step_by(2) {
+        let inv = inverse(o);
+        for t in 1u64..=48 {
+            let v = t.wrapping_mul(inv) as usize;
+            if v >= 52 {
+                idx.push(v);
+                wrap += 1;
+            }
+        }
+    }
+    for o in (1u64..1 << 11).step_by(2) {
+        let inv = inverse(o);
+        for k in 1u32..=8 {
+            for t in 1u64..=8 {
+                let low = t.wrapping_mul(inv) & (u64::MAX >> k);
+                for j in [0u64, 1, (1 << k) - 1] {
+                    let v = (low | (j << (64 - k))) as usize;
+                    if v >= 52 {
+                        idx.push(v);
+                        wrap += 1;
+                    }
+                }
+            }
+        }
+    }
+    rep.add("deck_indexes_that_wrap_under_small_multipliers", wrap);
     idx.sort_unstable();
     idx.dedup();
     for &i in &idx {
